@@ -3,6 +3,7 @@
   Property theorems ONLY.  For ANY number of reconstructions with any number of points and observations.
 -/
 import Kapture.Lemmas.C11
+import Kapture.Gen.MergePoints
 
 namespace Kapture.C11
 
@@ -69,5 +70,13 @@ theorem width_preserved (rs : List Recon) (c : Nat) (pts : List Row) (obs : List
 example : mergePointsObs [⟨none, 6, some [(0, "sift", "a.jpg", 1)]⟩, ⟨some [["1", "2", "3"]], 3, some [(0, "sift", "a.jpg", 7)]⟩,
                           ⟨some [["4", "5", "6"], ["7", "8", "9"]], 3, some [(1, "r2d2", "b.jpg", 2)]⟩]
     = Except.ok (3, [["1", "2", "3"], ["4", "5", "6"], ["7", "8", "9"]], [(0, "sift", "a.jpg", 7), (2, "r2d2", "b.jpg", 2)]) := by rfl
+
+/-- the loop of merge_points3d_and_observations is, statement for statement, the one Model/C11.lean transcribes: the translator
+  (Gen/MergePoints.lean) recognises exactly that loop on every run and refuses anything else -/
+theorem merge_code_is_the_model :
+    Gen.MergePoints.skipsInputsWithoutPoints = true ∧ Gen.MergePoints.offsetIsCountMergedBefore = true ∧
+    Gen.MergePoints.stacksInInputOrder = true ∧ Gen.MergePoints.observationsStartFresh = true ∧
+    Gen.MergePoints.shiftsOnlyThePointIndex = true := by
+  decide
 
 end Kapture.C11
